@@ -116,6 +116,9 @@ func (r *Rng) genVal(cfg genCfg, depth int, inList bool) interface{} {
 	case x < 4:
 		return r.genScalar()
 	case x < 7:
+		if cfg.emptyLists && r.chance(0.06) {
+			return map[string]interface{}{} // JSON {} below the top level
+		}
 		return r.genMap(cfg, depth)
 	default:
 		if inList && !cfg.nestedLists {
